@@ -166,6 +166,7 @@ def run(spec, out):
     nprng = np.random.default_rng(spec["corpus_seed"])
     fams = G.FAMILIES + ["update", "update", "update"]
     digests = []
+    done = []
     corpus = []
     extra = special_corpus(rng, nprng)
     for k in range(spec["n"] + len(extra)):
@@ -216,6 +217,19 @@ def run(spec, out):
         else:
             out.count("graph_texts_agree")
         digests.append([d1, g1])
+        done.append((case, b, inexact, d1))
+    # ---- the same calls once more in the opposite order, the backend now selected by an enclosing with-block instead of the argument:
+    # the outcome of a call does not depend on what was called before it, nor on how the (same) backend was selected
+    for case, b, inexact, d1 in reversed(done):
+        t = [np.array(x, copy=True) for x in case.tensors]
+        st, v = X.einx_call(case, None if b is None else "with:" + b, t)
+        d4 = "E:" + type(v).__name__ if st == "exc" else value_digest(v, inexact)
+        out.evaluation()
+        if d4 != d1:
+            out.violation({"kind": "repetition-in-another-order-differs", "family": case.family}, {**case.to_json(), "backend_by_with_block": b, "first": d1, "again": d4, "hashseed": spec["hashseed"]},
+                          f"{case.op}({case.desc()!r}, shapes={case.in_shapes}) gave {d1} first and {d4} when repeated after the rest of the corpus inside 'with {b}'")
+        else:
+            out.count("reverse_order_repetitions_agree")
     # ---- repeated calls with short-lived callables: tensor factories of different signatures are created, used once and dropped, many times
     # over (object addresses get reused); every repetition of a factory kind must reproduce the outcome of its first use
     import gc
@@ -351,6 +365,8 @@ def finalize(agg, tier, seed):
                 elif a[1] != b[1] and not a[1].startswith("E:"):
                     agg.counters["graph_text_differs_across_hashseeds"] += 1
     agg.counters["cross_process_comparisons"] = compared
+    if agg.counters.get("reverse_order_repetitions_agree", 0) < 100:
+        agg.inconclusive.append("fewer than 100 agreeing repetitions in reverse order")
     if agg.counters.get("short_lived_factory_repetitions_agree", 0) < 100:
         agg.inconclusive.append("fewer than 100 agreeing repetitions with short-lived factories")
     if agg.counters.get("multi_defect_calls", 0) < 50:
